@@ -125,7 +125,7 @@ def _history(args):
             try:
                 core._deadline(_mutate, 10)
             except BaseException as e:  # noqa
-                if isinstance(e, (KeyboardInterrupt, SystemExit)):
+                if isinstance(e, (KeyboardInterrupt, SystemExit, core.Hang)):
                     raise
                 exc = N.exc_token(e)
                 src = getattr(e, "src", 0) if exc == "HookFault" else 0
@@ -273,7 +273,7 @@ def _history(args):
                 cur = N.snapshot()
                 try:
                     obs = core._deadline(lambda: query_replay.perform(probe, family, cur[0], cur[1], objs=objs), 10)
-                except Exception as e:  # noqa
+                except (Exception, core.Hang) as e:  # noqa
                     obs = {"q": probe["q"], "raised": "%s: %s" % (type(e).__name__, str(e)[:200])}
                     stop = stop or isinstance(e, core.Hang)
                 queries.append({"id": "%s.%d.%s" % (hid, step, phase), "par": cur[0], "ch": cur[1], "query": dict(probe), "obs": obs, "changed": False})
@@ -349,7 +349,7 @@ def _history(args):
             hung = False
             try:
                 obs = core._deadline(lambda: query_replay.perform(query, family, prepar, prech, objs=objs), 10)
-            except Exception as e:  # noqa
+            except (Exception, core.Hang) as e:  # noqa
                 obs = {"q": q, "raised": "%s: %s" % (type(e).__name__, str(e)[:200])}
                 hung = isinstance(e, core.Hang)
             N.Ctx.log = saved
